@@ -5,7 +5,7 @@ package serviceinfo
 
 //@ func serviceinfo.ChunkReader.ReadChunk
 //@   props C15
-//@   sweep bounds,make,nilmem,panic
+//@   sweep bounds,make,nilmem,panic,nooverflow
 //@   makelimit 65535
 //@   requires r.r != nil ==> hdr(len(r.key)) + len(r.key) <= len(r.rkey)
 //@   ensures @budget err == nil ==> kvsize(len(result0.Key), len(result0.Val)) <= int(size)
